@@ -311,19 +311,19 @@ def units(tier):
 
 
 def classify(kinds, hist, detail):
-    """Known trigger: the violating step is the next() that suspends a generator inside `yield from`."""
+    """Known trigger: at the violating step some generator is suspended inside a `yield from`
+    (it has been advanced exactly once since it was created), or the step is that very next()."""
     tags = []
-    last = hist[-1]
-    if last[0] == "next" and kinds[last[1]] == "gen2":
-        # number of next() on that slot since its last create
-        n = 0
-        for o in hist:
-            if o == ("create", last[1]):
-                n = 0
-            elif o == ("next", last[1]):
-                n += 1
-        if n == 1:
-            tags.append("trigger:suspended-in-yield-from")
+    n = {}
+    for o in hist:
+        if o[0] == "create":
+            n[o[1]] = 0
+        elif o[0] == "next" and o[1] in n:
+            n[o[1]] += 1
+        elif o[0] in ("close", "drop"):
+            n.pop(o[1], None)
+    if any(kinds[k] == "gen2" and c == 1 for k, c in n.items()):
+        tags.append("trigger:suspended-in-yield-from")
     return tags
 
 
